@@ -76,11 +76,82 @@ Fixpoint lists_eqb (a b : list (list Z)) : bool :=
   | _, _ => false
   end.
 
+(* ---------- the whole LIFE of one watcher: the block source may CLOSE the channel ----------
+   watchCoordinationWindows calls watchBlocksFn exactly once, before the loop, and never
+   again.  When the source closes that channel, `block := <-blocksChan` (no `ok` test) yields
+   the zero value at once, every time: the loop keeps executing iterations with block 0 —
+   [step f last 0], which starts nothing and leaves lastWindow alone (Proofs: step_zero) —
+   until the context is cancelled (select picks <-ctx.Done() with probability 1/2 at every
+   iteration).  It busy-spins, it does not re-subscribe.  So a history of the block source is
+   a list of events; whatever the source offers on a further subscription after a close is
+   never received ([None]): there is no such subscription. *)
+Inductive event := EBlock (b : Z) | EClose.
+
+(* per event: [Some out] = the watcher received it (a block, or the closure in the form of
+   zero-value reads) and started [out]; [None] = the watcher never received it *)
+Fixpoint life_from (f : Z) (last : option Z) (closed : bool) (h : list event)
+  : list (option (list Z)) :=
+  match h with
+  | [] => []
+  | EBlock b :: t =>
+      if closed then None :: life_from f last true t
+      else let '(last', out) := step f last b in Some out :: life_from f last' false t
+  | EClose :: t =>
+      if closed then None :: life_from f last true t
+      else let '(last', out) := step f last 0 in Some out :: life_from f last' true t
+  end.
+Definition life (f : Z) (h : list event) : list (option (list Z)) := life_from f None false h.
+
+(* every window started over the whole life, in start order *)
+Fixpoint started_all {E} (obs : list (E * option (list Z))) : list Z :=
+  match obs with
+  | [] => []
+  | (_, Some out) :: t => out ++ started_all t
+  | (_, None) :: t => started_all t
+  end.
+(* the blocks the watcher received over its whole life, with what each started *)
+Fixpoint consumed (obs : list (event * option (list Z))) : list (Z * list Z) :=
+  match obs with
+  | [] => []
+  | (EBlock b, Some out) :: t => (b, out) :: consumed t
+  | _ :: t => consumed t
+  end.
+
+(* the property over the WHOLE life, whatever the watcher does about closed channels (spin,
+   stop or re-subscribe): a received block starts exactly its window, and only if it is a
+   window start later than every window start received before ON ANY SUBSCRIPTION; a closure
+   and an event that was not received start nothing *)
+Fixpoint life_ok (f : Z) (seen : list Z) (obs : list (event * option (list Z))) : bool :=
+  match obs with
+  | [] => true
+  | (EBlock b, Some out) :: t => list_eqb out (expected f seen b) && life_ok f (b :: seen) t
+  | (EBlock _, None) :: t => life_ok f seen t
+  | (EClose, Some out) :: t => list_eqb out [] && life_ok f seen t
+  | (EClose, None) :: t => life_ok f seen t
+  end.
+
+Definition opt_list_eqb (a b : option (list Z)) : bool :=
+  match a, b with
+  | None, None => true
+  | Some x, Some y => list_eqb x y
+  | _, _ => false
+  end.
+Fixpoint opt_lists_eqb (a b : list (option (list Z))) : bool :=
+  match a, b with
+  | [], [] => true
+  | x :: a', y :: b' => opt_list_eqb x y && opt_lists_eqb a' b'
+  | _, _ => false
+  end.
+Definition event_u64 (is_u64 : Z -> bool) (e : event) : bool :=
+  match e with EBlock b => is_u64 b | EClose => true end.
+
 Definition two64 : Z := 18446744073709551616.
 Definition is_u64 (z : Z) : bool := (0 <=? z) && (z <? two64).
 
 Inductive case :=
 | CStream (steps : list (Z * list Z))          (* real watchCoordinationWindows on a scripted channel *)
+| CLife (obs : list (event * option (list Z))) (* one watcher, channels closed by the source, new
+                                                  subscriptions handed out on demand *)
 | CIndex (b idx : Z)                            (* coordinationWindow.index *)
 | CIsAfter (b : Z) (other : option Z) (r : bool). (* coordinationWindow.isAfter *)
 
@@ -90,6 +161,7 @@ Section Judge.
   Definition spec_ok (c : case) : bool :=
     match c with
     | CStream steps => steps_ok f [] steps
+    | CLife obs => life_ok f [] obs
     | CIndex b idx => if is_window_start f b then (0 <? idx) && (idx * f =? b) else idx =? 0
     | CIsAfter b other r =>
         Bool.eqb r (match other with None => true | Some o => o <? b end)
@@ -98,6 +170,7 @@ Section Judge.
   Definition agree (c : case) : bool :=
     match c with
     | CStream steps => lists_eqb (map snd steps) (run f (map fst steps))
+    | CLife obs => opt_lists_eqb (map snd obs) (life f (map fst obs))
     | CIndex b idx => idx =? index f b
     | CIsAfter b other r => Bool.eqb r (is_after b other)
     end.
@@ -105,6 +178,7 @@ Section Judge.
   Definition well_formed (c : case) : bool :=
     match c with
     | CStream steps => forallb (fun s => is_u64 (fst s)) steps
+    | CLife obs => forallb (fun s => event_u64 is_u64 (fst s)) obs
     | CIndex b _ => is_u64 b
     | CIsAfter b other _ => is_u64 b && match other with None => true | Some o => is_u64 o end
     end.
@@ -115,6 +189,8 @@ Section Judge.
   Definition explain_with (c : case) : list (list Z) :=
     match c with
     | CStream steps => run f (map fst steps)
+    | CLife obs => map (fun o => match o with Some out => out | None => [-1] end)
+                       (life f (map fst obs))
     | CIndex b _ => [[index f b]]
     | CIsAfter b other _ => [[if is_after b other then 1 else 0]]
     end.
